@@ -329,15 +329,16 @@ func verifyArgsUsed(set *ProviderSet, used []*providerSetSrc) []error {
 			errs = append(errs, fmt.Errorf("unused interface binding to type %s", types.TypeString(b.Iface, nil)))
 		}
 	}
-	for _, f := range set.Fields {
-		found := false
-		for _, u := range used {
-			if u.Field == f {
-				found = true
-				break
-			}
+	// The fields listed by one wire.FieldsOf call are one argument: it is
+	// unused only if none of them is used.
+	usedFieldsOf := make(map[token.Pos]bool)
+	for _, u := range used {
+		if u.Field != nil {
+			usedFieldsOf[u.Field.call] = true
 		}
-		if !found {
+	}
+	for _, f := range set.Fields {
+		if !usedFieldsOf[f.call] {
 			errs = append(errs, fmt.Errorf("unused field %q.%s", f.Parent, f.Name))
 		}
 	}
